@@ -339,8 +339,8 @@ func nativeScenario(root string, vs harnessSpec) (string, string) {
 		scratch, _ = os.MkdirTemp("", "gosym-vft-")
 	}
 	defer os.RemoveAll(scratch)
-	modPath := map[string]string{"client": "github.com/orda-io/orda/client", "server": "github.com/orda-io/orda/server"}[vs.Module]
-	pkgDir := filepath.Join(repoRoot, vs.Module, strings.TrimPrefix(vs.Pkg, modPath))
+	modPath := map[string]string{"client": "github.com/orda-io/orda/client", "server": "github.com/orda-io/orda/server", "serverreal": "github.com/orda-io/orda/server"}[vs.Module]
+	pkgDir := filepath.Join(repoRoot, moduleDir(vs.Module), strings.TrimPrefix(vs.Pkg, modPath))
 	pkgName := filepath.Base(vs.Pkg)
 	if pn := packageNameOf(ov, pkgDir); pn != "" {
 		pkgName = pn
@@ -353,7 +353,7 @@ func nativeScenario(root string, vs harnessSpec) (string, string) {
 	b, _ := json.Marshal(map[string]interface{}{"Replace": ov})
 	os.WriteFile(ovJSON, b, 0o644)
 	cmd := osexec.Command("go", "test", "-v", "-vet=off", "-count=1", "-overlay", ovJSON, "-run", "^TestVFT$", vs.Pkg)
-	cmd.Dir = filepath.Join(repoRoot, vs.Module)
+	cmd.Dir = filepath.Join(repoRoot, moduleDir(vs.Module))
 	cmd.Env = append(os.Environ(), "GOFLAGS=-mod=mod", "GOPROXY=off", "GOSUMDB=off", "GOTOOLCHAIN=local")
 	out, _ := cmd.CombinedOutput()
 	for _, line := range strings.Split(string(out), "\n") {
@@ -512,9 +512,9 @@ func nativeReplayLoops(root, module, pkg, harness, label, kind, replayPath strin
 	}
 	defer os.RemoveAll(scratch)
 	// package directory of pkg inside the module
-	modPath := map[string]string{"client": "github.com/orda-io/orda/client", "server": "github.com/orda-io/orda/server"}[module]
+	modPath := map[string]string{"client": "github.com/orda-io/orda/client", "server": "github.com/orda-io/orda/server", "serverreal": "github.com/orda-io/orda/server"}[module]
 	rel := strings.TrimPrefix(pkg, modPath)
-	pkgDir := filepath.Join(repoRoot, module, rel)
+	pkgDir := filepath.Join(repoRoot, moduleDir(module), rel)
 	pkgName := filepath.Base(pkg)
 	if pn := packageNameOf(ov, pkgDir); pn != "" {
 		pkgName = pn
@@ -580,7 +580,7 @@ func TestVFReplay(t *testing.T) {
 	bin := filepath.Join(scratch, "replay.test")
 	env := append(os.Environ(), "GOFLAGS=-mod=mod", "GOPROXY=off", "GOSUMDB=off", "GOTOOLCHAIN=local", "VF_REPLAY="+replayPath, fmt.Sprintf("VF_LOOPS=%d", loops), fmt.Sprintf("VF_TIER=%d", currentTier))
 	build := osexec.Command("go", "test", "-c", "-vet=off", "-overlay", ovJSON, "-o", bin, pkg)
-	build.Dir = filepath.Join(repoRoot, module)
+	build.Dir = filepath.Join(repoRoot, moduleDir(module))
 	build.Env = env
 	if out, err := build.CombinedOutput(); err != nil {
 		return "build-failed: " + firstLine(string(out))
@@ -628,7 +628,7 @@ func TestVFReplay(t *testing.T) {
 // yieldDirs: the packages whose statements become scheduling points in the
 // native replay of an interleaving counterexample.
 func yieldDirs(module string) []string {
-	if module == "server" {
+	if module == "server" || module == "serverreal" {
 		return []string{"server/utils", "server/service", "server/snapshot", "server/managers", "server/notification",
 			"client/pkg/internal/datatypes", "client/pkg/internal/managers"}
 	}
